@@ -1,0 +1,30 @@
+//! Verification-only pause points (compiled only with `--cfg asynchronix_verif`).
+//!
+//! A pause point is a no-op unless a test has installed a callback; the callback
+//! receives the name of the pause point and runs on the thread that reached it.
+//! This lets a test replay one specific interleaving deterministically.
+
+use std::sync::Mutex;
+
+type Hook = Box<dyn Fn(&str) + Send + 'static>;
+
+static HOOK: Mutex<Option<Hook>> = Mutex::new(None);
+
+/// Installs (or, with `None`, removes) the pause point callback.
+pub fn set_pause_hook(hook: Option<Hook>) {
+    *HOOK.lock().unwrap() = hook;
+}
+
+/// Reports that the current thread has reached the named pause point.
+pub(crate) fn pause_point(name: &str) {
+    // Take the callback out while it runs so that it may itself reach pause
+    // points without deadlocking.
+    let hook = HOOK.lock().unwrap().take();
+    if let Some(hook) = hook {
+        hook(name);
+        let mut slot = HOOK.lock().unwrap();
+        if slot.is_none() {
+            *slot = Some(hook);
+        }
+    }
+}
